@@ -127,6 +127,11 @@ func ExpectedDiagnostics(root *m.BodyM, body *hclsyntax.Body) (diags []Diag, ign
 			}
 			if bs.Min != 0 && found[t] < bs.Min {
 				if bc.DynamicOn && dynamicFor[t] {
+					if s.Ext == nil || !s.Ext.Dynamic {
+						// the extension is only inherited from an enclosing body: whether the
+						// dynamic block counts here is not decided by the statement
+						dontCare = append(dontCare, diagAt(true, fmt.Sprintf("Too few blocks specified for %q", t), bc.Body.SrcRange))
+					}
 					continue // a dynamic block of that type satisfies the minimum
 				}
 				diags = append(diags, diagAt(true, fmt.Sprintf("Too few blocks specified for %q", t), bc.Body.SrcRange))
